@@ -467,7 +467,8 @@ def fam_pairs(tier):
     quick = tier == 'quick'
 
     def srcs(other, me):
-        s = [ABSENT, BARE, EQ, ref(other), ref(other, '?'), ref(other, ';t>u!opt'), lit('tcp://h:6000'),
+        s = [ABSENT, BARE, EQ, ref(other), ref(other, '?'), ref(other, ';t>u!opt'), ref(other, ';main>ab'),   # (a suffix that contains the ids 'a' and 'b')
+             lit('tcp://h:6000'),
              ['items', [['lit', 'tcp://h:6000'], ['ref', other, ';t']]]]
 
         if not quick:
@@ -500,7 +501,7 @@ def fam_ports(tier):
     """Two filters, port allocation: one allocated output against every explicit port form of the other filter."""
 
     outs = [ABSENT, BARE, EQ, val('tcp://*'), val('tcp://0.0.0.0'), val('tcp://0')] + [val(f'tcp://*:{p}') for p in PORTS] + \
-           [val('ipc://x'), val('tcp://*:6000, tcp://*:7000'), val('tcp://*:5551, tcp://*:5549')]
+           [val('ipc://x'), val('tcp://*:6000, tcp://*:7000'), val('tcp://*:5551, tcp://*:5549'), val('tcp://*:5550, tcp://*:5552')]
     dims = [['VideoIn', 'Util', 'Webvis'], ['Util', USER, 'Webvis'], [ABSENT, ref(1), ref(1, '?')],
             [ABSENT, ref(0), BARE, EQ], outs, outs, ['space', 'eq'], [False, True]]
 
